@@ -155,6 +155,22 @@ def metadata_doc (leading : Str) (trailing : Str) (detached : List Str) : Str :=
   else
   (([] : Str))))
 
+-- gapic/schema/wrappers.py — Field.name
+def field_name (pb_name : Str) (is_proto_plus_type : Bool) : Str :=
+  let name : Str := pb_name
+  (if ((strIn name (GapicModel.Pinned.reservedNames.map String.toList)) && is_proto_plus_type) then (name ++ (['_'] : Str)) else name)
+
+-- gapic/schema/wrappers.py — Method.void
+def method_void (output_proto : Str) : Bool :=
+  (output_proto == (['g', 'o', 'o', 'g', 'l', 'e', '.', 'p', 'r', 'o', 't', 'o', 'b', 'u', 'f', '.', 'E', 'm', 'p', 't', 'y'] : Str))
+
+-- gapic/schema/wrappers.py — Service.client_package_version
+def service_client_package_version (package : List Str) : Str :=
+  (if (truthy package) then (idxList package (-1 : Int)) else ([] : Str))
+/-- true iff no index expression evaluated by `service_client_package_version` on these arguments is out of range (Python raises IndexError otherwise) -/
+def service_client_package_version_ok (package : List Str) : Bool :=
+  (if (truthy package) then (inRange (len package) (-1 : Int)) else true)
+
 -- gapic/schema/imp.py — Import.__str__
 def import_str (self_alias : Str) (self_module : Str) (self_package : List Str) : Str :=
   let answer : Str := ((['i', 'm', 'p', 'o', 'r', 't', ' '] : Str) ++ self_module)
